@@ -66,6 +66,8 @@ __TAG_IF__                 = '<<<IF>>>'
 __TAG_ELSEIF__             = '<<<ELSEIF>>>'
 __TAG_ELSE__               = '<<<ELSE>>>'
 __TAG_ENDIF__              = '<<<ENDIF>>>'
+# Suffix of the temporary files that output is written to before being renamed to its final name.
+__TMP_SUFFIX__             = '.kojen-tmp'
 
 
 '''------------------------------------------------------------------------------------------------------'''
@@ -609,10 +611,19 @@ class CGenerator:
             print("+++++++++ ", f)
             filename = os.path.join(self.output_gen_file_dir, f)
             os.makedirs(os.path.dirname(filename), exist_ok=True)
-            with open(filename, 'w') as writer:
-                for line in filenames_to_lines[f]:
-                    line = line.replace('\t',"    ") # Last filter! Convert tabs to 4 spaces...
-                    writer.write(line)
+            # Write to a temporary sibling and rename it over the target, so that an interrupted run never leaves
+            # a (hand-edited) pre-existing file truncated or half written.
+            tmpfilename = filename + __TMP_SUFFIX__
+            try:
+                with open(tmpfilename, 'w') as writer:
+                    for line in filenames_to_lines[f]:
+                        line = line.replace('\t',"    ") # Last filter! Convert tabs to 4 spaces...
+                        writer.write(line)
+                os.replace(tmpfilename, filename)
+            except BaseException:
+                if os.path.exists(tmpfilename):
+                    os.remove(tmpfilename)
+                raise
         return list(filenames_to_lines.keys())
 
 
@@ -740,7 +751,9 @@ def FileCopyUtil(dir_from, dir_to, list_of_filenames):
         os.makedirs(dir_to, exist_ok=True)
         for filename in list_of_filenames:
             try:
-                shutil.copy(os.path.join(dir_from, filename), os.path.join(dir_to, filename))
+                # copy to a temporary sibling first : a failed/interrupted copy must not truncate an existing file.
+                shutil.copy(os.path.join(dir_from, filename), os.path.join(dir_to, filename) + __TMP_SUFFIX__)
+                os.replace(os.path.join(dir_to, filename) + __TMP_SUFFIX__, os.path.join(dir_to, filename))
             except OSError:
                 warning("Copy of the file %s failed" % os.path.join(dir_from, filename))
     except OSError:
